@@ -83,6 +83,8 @@ pub struct EvalOut {
     pub abort_running: usize,
     /// records: what every job's current output is at the end (executed: reported; else ledger)
     pub cur: BTreeMap<String, String>,
+    /// jobs that were skipped first and turned into an upstream failure later
+    pub flipped: BTreeSet<String>,
 }
 
 impl EvalOut {
@@ -303,6 +305,9 @@ pub fn run_eval(w: &mut World, plan: &Plan, sched: &Sched, opts: &Opts) -> EvalO
                         res.v("C17", "offered-twice", format!("{} {} -> {}", j, from, to));
                     }
                 }
+                if from.contains("FinishedSkipped") && to.contains("FinishedUpstreamFailure") {
+                    res.flipped.insert(j.clone());
+                }
                 if let Some(prev) = states_seen.get(j) {
                     if prev != from {
                         res.v("C17", "transition-log-gap", format!("{} was {} but moves from {}", j, prev, from));
@@ -446,8 +451,10 @@ pub fn run_eval(w: &mut World, plan: &Plan, sched: &Sched, opts: &Opts) -> EvalO
                         res.v("C02", "upstream-not-finished", format!("{} offered/running while {} is {}", j, uid, ust));
                         continue;
                     }
-                    if is_bad(ust) {
-                        res.v("C02", "upstream-failed", format!("{} offered/running while {} is {}", j, uid, ust));
+                    // (a skipped upstream may still be turned into an upstream failure while
+                    // the consumer runs; the statement speaks about the moment of the offer)
+                    if is_bad(ust) && ready.contains(j) {
+                        res.v("C02", "upstream-failed", format!("{} offered while {} is {}", j, uid, ust));
                         continue;
                     }
                     match w.kind(u) {
